@@ -1,6 +1,7 @@
 package props
 
 import (
+	"sync"
 	"bufio"
 	"bytes"
 	"encoding/binary"
@@ -328,4 +329,82 @@ func closeBounded(ts *httptest.Server) {
 	case <-done:
 	case <-time.After(2 * time.Second):
 	}
+}
+
+// ---- concurrent requests: every client gets the reply to its own message ----
+
+type c20Conc struct {
+	Clients int `json:"concurrent_clients"`
+	Each    int `json:"requests_each"`
+	MaxKB   int `json:"reply_size_up_to_kb"`
+}
+
+func c20ReplyFor(req []byte) []byte {
+	// the reply depends on every byte of the request: length from the first two bytes, content from a running sum
+	if len(req) < 8 {
+		return nil
+	}
+	n := 200 + (int(req[0])<<8|int(req[1]))%58000
+	out := make([]byte, n)
+	var s byte
+	for _, b := range req {
+		s = s*31 + b
+	}
+	for i := range out {
+		out[i] = s + byte(i*7)
+	}
+	return out
+}
+
+func TestC20_CONC(t *testing.T) {
+	dir := t.TempDir()
+	runProp(t, "C20_CONC", func(t *rapid.T) c20Conc {
+		return c20Conc{Clients: rapid.IntRange(2, 16).Draw(t, "clients"), Each: rapid.IntRange(10, 120).Draw(t, "each"), MaxKB: 58}
+	}, func(c c20Conc) (bool, []string) { return true, nil }, func(c c20Conc) *Violation {
+		k, err := kdc.Start("silent", nil, false)
+		if err != nil {
+			return viol("infra", "cannot start fake KDC: %v", err)
+		}
+		defer k.Close()
+		k.ReplyFor = c20ReplyFor
+		cf := filepath.Join(dir, fmt.Sprintf("krb5-conc-%d.conf", time.Now().UnixNano()))
+		os.WriteFile(cf, []byte("[libdefaults]\n default_realm = EXAMPLE.COM\n dns_lookup_kdc = false\n[realms]\n EXAMPLE.COM = {\n  kdc = "+k.Addr()+"\n }\n"), 0o600)
+		defer os.Remove(cf)
+		proxy := kdcproxy.InitKdcProxy(cf)
+		ts := httptest.NewServer(http.HandlerFunc(proxy.Handler))
+		defer closeBounded(ts)
+		errs := make(chan string, c.Clients)
+		var wg sync.WaitGroup
+		for w := 0; w < c.Clients; w++ {
+			wg.Add(1)
+			go func(w int) {
+				defer wg.Done()
+				cl := &http.Client{Timeout: answerBound}
+				for i := 0; i < c.Each; i++ {
+					payload := []byte{byte(w*37 + i), byte(i * 11), byte(w), byte(i), byte(i >> 8), 0xC2, byte(w ^ i), 0x20}
+					msg := append(binary.BigEndian.AppendUint32(nil, uint32(len(payload))), payload...)
+					resp, err := cl.Post(ts.URL+"/KdcProxy", "application/kerberos", bytes.NewReader(kdc.EncodeProxyMessage(msg, "EXAMPLE.COM", false)))
+					if err != nil {
+						errs <- fmt.Sprintf("client %d request %d: no answer: %v", w, i, err)
+						return
+					}
+					rb, _ := io.ReadAll(resp.Body)
+					resp.Body.Close()
+					want := c20ReplyFor(payload)
+					got, ok := kdc.DecodeProxyMessage(rb)
+					if resp.StatusCode != 200 || !ok || len(got) < 4 || !bytes.Equal(got[4:], want) || binary.BigEndian.Uint32(got) != uint32(len(want)) {
+						errs <- fmt.Sprintf("client %d request %d: status %d, the KDC's reply to this message has %d bytes, the relayed one %d (prefix %x): not the reply to this client's message", w, i, resp.StatusCode, len(want), len(got)-4, trunc64b(got)[:4])
+						return
+					}
+				}
+			}(w)
+		}
+		wg.Wait()
+		select {
+		case e := <-errs:
+			return viol("c20/reply-of-another-request", "%s (%d clients at once, replies over UDP)", e, c.Clients)
+		default:
+		}
+		return nil
+	})
 }
